@@ -13,14 +13,21 @@
      - the formula counts ONE block per input array, so a LIST argument of k > 1 resident blocks is covered only if the
        operation declares extra_projected_mem >= (k - 1) * size      (this is how unstack under-projects: F11)
      - a streamed argument needs the running result next to the current block: covered by the documented extra chunk
+     - of several outputs only the LARGEST block is counted (all are resident when the function returns): the others need
+       declared extra memory; counting the LAST output instead (switch OutRule = "last") under-projects whenever an earlier
+       output has the larger chunks
    Invariant Dominates: Safe(op) => PeakLive(op) <= Projected(op) - Reserved;  UnsafeExists shows the bound is tight. *)
 EXTENDS Integers, Sequences, FiniteSets, TLC
-CONSTANTS MaxArgs, MaxK, MaxSize, MaxExtra, ReadCopies, WriteCopies, Reserved
+CONSTANTS MaxArgs, MaxK, MaxSize, MaxExtra, ReadCopies, WriteCopies, Reserved,
+          OutRule    \* "max" (cubed: general_blockwise counts the LARGEST output block) | "last" (design switch: the last output's
+                     \* block, as if all outputs had one chunk size) -- "last" must violate Dominates
 VARIABLE op
 Kinds == {"single", "list", "iter"}
 ArgSpace == [kind : Kinds, k : 1..MaxK, size : 1..MaxSize, pred : BOOLEAN, pin : 1..MaxSize, pextra : 0..1]
-OpSpace == UNION {[args : [1..n -> ArgSpace], out : 1..MaxSize, extra : 0..MaxExtra, actual : 0..MaxExtra] : n \in 1..MaxArgs}
-Init == op \in {o \in OpSpace : o.actual <= o.extra /\ \A j \in DOMAIN o.args : (o.args[j].kind = "single" => o.args[j].k = 1)}
+\* out2 = 0: one output; out2 > 0: a second output with its own block size (same number of blocks, different chunk size)
+OpSpaceN(n) == [args : [1..n -> ArgSpace], out : 1..MaxSize, out2 : 0..MaxSize, extra : 0..MaxExtra, actual : 0..MaxExtra]
+Init == \E n \in 1..MaxArgs : /\ op \in OpSpaceN(n)      \* enumerated lazily: the space is larger than TLC's set-size limit
+                               /\ op.actual <= op.extra /\ \A j \in DOMAIN op.args : (op.args[j].kind = "single" => op.args[j].k = 1)
 Next == UNCHANGED op
 Spec == Init /\ [][Next]_op
 Max(a, b) == IF a > b THEN a ELSE b
@@ -39,14 +46,18 @@ ReadPeak(j) == ResidentBefore(j) + (IF A(j).kind = "list" THEN (A(j).k - 1) * A(
 \* while the function runs: resident arguments + actual extra + output + per streamed argument the current block being
 \* obtained and the running result of the reduction
 StreamLive(j) == IF A(j).kind = "iter" THEN GetBlock(j) + A(j).size ELSE 0
-FuncPeak == ResidentBefore(N + 1) + op.actual + op.out + SumTo(LAMBDA j : StreamLive(j), N, 0)
-WritePeak == op.out * (1 + WriteCopies)
+\* the function returns ALL output blocks together; they are then written one after the other (one encoded copy at a time)
+OutSum == op.out + op.out2
+OutMax == Max(op.out, op.out2)
+OutCounted == IF OutRule = "max" THEN OutMax ELSE (IF op.out2 > 0 THEN op.out2 ELSE op.out)
+FuncPeak == ResidentBefore(N + 1) + op.actual + OutSum + SumTo(LAMBDA j : StreamLive(j), N, 0)
+WritePeak == OutSum + OutMax * WriteCopies
 PeakLive == Max(Max(SumTo(LAMBDA j : ReadPeak(j), 0, 0), FuncPeak), WritePeak)
 RECURSIVE MaxRead(_)
 MaxRead(j) == IF j = 0 THEN 0 ELSE Max(ReadPeak(j), MaxRead(j - 1))
 Peak == Max(Max(MaxRead(N), FuncPeak), WritePeak)
 \* ---- cubed's accounting
-OwnProjected == Reserved + SumTo(LAMBDA j : A(j).size * (ReadCopies + 1), N, 0) + op.extra + op.out * (1 + WriteCopies)
+OwnProjected == Reserved + SumTo(LAMBDA j : A(j).size * (ReadCopies + 1), N, 0) + op.extra + OutCounted * (1 + WriteCopies)
 PredProjected(j) == Reserved + A(j).pin * (ReadCopies + 1) + A(j).pextra + A(j).size * (1 + WriteCopies)
 RECURSIVE PredPeak(_, _, _)
 PredPeak(j, cur, pk) ==      \* MemoryModeller over the fused predecessors in argument order
@@ -58,7 +69,8 @@ Projected == Max(OwnProjected, PredPeak(1, 0, 0))
 ListSlack == SumTo(LAMBDA j : IF A(j).kind = "list" THEN (A(j).k - 1) * A(j).size ELSE 0, N, 0)
 StreamSlack == SumTo(LAMBDA j : IF A(j).kind = "iter" THEN A(j).size ELSE 0, N, 0)
 PredSlack == SumTo(LAMBDA j : IF A(j).pred /\ A(j).kind # "single" THEN A(j).k * (A(j).pin + A(j).pextra) ELSE 0, N, 0)
-Safe == op.extra - op.actual >= ListSlack + StreamSlack + PredSlack
+OutSlack == OutSum - OutMax        \* the smaller output of a two-output operation is not counted by the formula
+Safe == op.extra - op.actual >= ListSlack + StreamSlack + PredSlack + OutSlack
 Dominates == Safe => Peak <= Projected - Reserved
 \* vacuity: without the side condition the formula does NOT dominate (TLC must find an under-projected shape)
 DominatesUnconditionally == Peak <= Projected - Reserved
